@@ -48,9 +48,122 @@ def setup():
     fh.write('def known(a=None, b=None):\n  return (a, b)\n\ndef fn(arg=None):\n  return arg\n\ndef g():\n  return "g"\n')
   with open(os.path.join(d, 'c15late.py'), 'w') as fh:      # registers its configurable when it is imported
     fh.write('import gin\n\n@gin.configurable\ndef late_fn(a=None, b=None):\n  return (a, b)\n')
+  with open(os.path.join(d, 'c15raises_ie.py'), 'w') as fh:  # exists, but raises a bare ImportError (its `name` is None)
+    fh.write('raise ImportError("needs a GPU")\n')
+  with open(os.path.join(d, 'c15needs_missing.py'), 'w') as fh:  # exists, imports something that does not
+    fh.write('import no_such_dependency_c15\n')
   sys.path.insert(0, d)
   import atexit
   atexit.register(lambda: shutil.rmtree(d, ignore_errors=True))
+
+
+def run_failing_import_case(case, res):
+  """An import that fails with ImportError although the module exists (it raises one itself, or needs something missing):
+  whether that counts as 'missing' is Gin's call, but the parse either skips exactly that statement or fails with the
+  ImportError after the statements before it -- nothing else."""
+  _, mod, sname = case
+  skip = dict(SKIPS, **{'True': True, 'False': False})[sname]
+  harness.hard_reset()
+  res.case(tuple(case), True)
+  for m in ('c15raises_ie', 'c15needs_missing'):
+    sys.modules.pop(m, None)
+  try:
+    gin.parse_config("c15.known.a = 1\n\nimport %s\nc15.known.b = 2\n" % mod, skip_unknown=skip)
+    out = 'ok'
+  except ImportError:
+    out = 'ImportError'
+  except Exception as e:  # pylint: disable=broad-except
+    out = 'other:%r' % (e,)
+  got = {k: dict(v) for k, v in cfg._CONFIG.items()}
+  want = {'ok': {('', 'c15.known'): {'a': 1, 'b': 2}}, 'ImportError': {('', 'c15.known'): {'a': 1}}}.get(out)
+  res.outcome('failing_import:' + out.split(':')[0])
+  if want is None or got != want or (not skip and out != 'ImportError'):
+    res.violation('failing_import', '%r: outcome %s, config %r' % (case, out, got), case)
+  else:
+    res.w('failing_import_skipped_or_reported')
+
+
+def run_resolved_later_case(case, res):
+  """A placeholder stays a placeholder: registering the name after the lenient parse (or having it registered where this
+  dynamic-registration file cannot see it) does not make the stored value resolve to something."""
+  _, how, sname = case
+  skip = {'True': True, 'list': ['c15later_fn', 'c15mod.known'], 'set': {'c15later_fn', 'c15mod.known'}}[sname]
+  harness.hard_reset()
+  res.case(tuple(case), True)
+
+  def later_fn():
+    return 'result of later_fn'
+  if how == 'registered_after_parse':
+    gin.parse_config("c15.known.b = [1, @c15later_fn()]\nc15.known.a = 'a'\n", skip_unknown=skip)
+    gin.external_configurable(later_fn, name='c15later_fn', module='c15late_reg')
+  else:
+    # statically registered, but this dynamic-registration file does not import it: unknown for the file
+    gin.external_configurable(later_fn, name='c15later_fn', module='c15late_reg')
+    gin.parse_config(H_DYN_ + "import c15mod\nc15mod.known.b = [1, @c15later_fn()]\nc15mod.known.a = 'a'\n", skip_unknown=skip)
+  try:
+    target = KNOWN if how == 'registered_after_parse' else gin.get_configurable(__import__('c15mod').known)
+    r = target()
+    used = 'returned %r' % (r,)
+  except ValueError as e:
+    used = 'ValueError' if 'No configurable matching' in str(e) else 'ValueError: %s' % e
+  except Exception as e:  # pylint: disable=broad-except
+    used = repr(e)
+  try:
+    gin.finalize()
+    fin = 'accepted'
+  except ValueError:
+    fin = 'ValueError'
+  except Exception as e:  # pylint: disable=broad-except
+    fin = repr(e)
+  res.outcome('resolved_later:%s' % used.split(' ')[0])
+  if used != 'ValueError':
+    res.violation('placeholder_silently_used', '%r: the value holding the placeholder was used: %s' % (case, used), case)
+  elif fin != 'ValueError':
+    res.violation('placeholder_survives_finalize', '%r: finalize %s' % (case, fin), case)
+  else:
+    res.w('placeholder_stays_a_placeholder')
+
+
+H_DYN_ = 'from __gin__ import dynamic_registration\n'
+
+
+def run_include_case(case, res):
+  """What skip_unknown covers does not depend on the include depth: a listed unknown is skipped, an unlisted one is an
+  error, an unlisted unknown reference is an error (not a placeholder) -- exactly as in the flattened text."""
+  _, leaf_kind, sname = case
+  skip = {'list': ['c15optional'], 'tuple': ('c15optional',), 'set': {'c15optional'}, 'True': True}[sname]
+  d = SCRATCH[0]
+  leaf = {'listed_unknown': "c15optional.q = 2\nc15.known.b = 'leaf'\n",
+          'unlisted_unknown': "c15.known.b = 'leaf'\nc15mystery.r = 3\n",
+          'unlisted_unknown_reference': "c15.known.b = @c15mystery_ref()\n"}[leaf_kind]
+  tag = 'c15i_%s_%s_%d' % (leaf_kind, sname, os.getpid())       # (cases run in parallel processes: private file names)
+  for name, text in ((tag + '_root.gin', "c15.known.a = 'root'\ninclude '%s_mid.gin'\n" % tag),
+                     (tag + '_mid.gin', "c15optional.p = 1\ninclude '%s_leaf.gin'\n" % tag), (tag + '_leaf.gin', leaf)):
+    with open(os.path.join(d, name), 'w') as fh:
+      fh.write(text)
+  harness.hard_reset()
+  gin.add_config_file_search_path(d)
+  res.case(tuple(case), True)
+  try:
+    gin.parse_config_file(tag + '_root.gin', skip_unknown=skip)
+    out = 'ok'
+  except ValueError:
+    out = 'ValueError'
+  except Exception as e:  # pylint: disable=broad-except
+    out = 'other:%r' % (e,)
+  got = {k: {p: canon_real(v) for p, v in dd.items()} for k, dd in cfg._CONFIG.items()}
+  if sname == 'True':
+    want_out = 'ok'
+    want = {('', 'c15.known'): {'a': 'root', 'b': P('c15mystery_ref', True) if leaf_kind.endswith('reference') else 'leaf'}}
+  else:
+    want_out = 'ok' if leaf_kind == 'listed_unknown' else 'ValueError'
+    want = {('', 'c15.known'): {'a': 'root'} if leaf_kind.endswith('reference') else {'a': 'root', 'b': 'leaf'}}
+  res.outcome('include:' + out.split(':')[0])
+  if out != want_out or got != want:
+    res.violation('not_exactly_the_unknown_statements', '%r: skip_unknown=%r through two includes: %s with config %r; the '
+                  'flattened text gives %s with %r' % (case, skip, out, got, want_out, want), case)
+  else:
+    res.w('skip_list_same_at_every_include_depth')
 
 
 # statement: (text, kind, target selector as written, param(s), value model, names of unknown refs inside)
@@ -411,6 +524,15 @@ def run_late_case(case, res):
 
 
 def gen(tier):
+  for leaf_kind in ('listed_unknown', 'unlisted_unknown', 'unlisted_unknown_reference'):
+    for sname in ('list', 'tuple', 'set', 'True'):
+      yield ['include', leaf_kind, sname]
+  for how in ('registered_after_parse', 'registered_but_not_imported'):
+    for sname in ('True', 'list', 'set'):
+      yield ['resolved_later', how, sname]
+  for mod in ('c15raises_ie', 'c15needs_missing'):
+    for sname in ('False', 'True', 'list_all', 'tuple_all', 'set_other', 'list_empty'):
+      yield ['failing_import', mod, sname]
   for name in NOT_IMPORTED:
     for sname in list(LATE_SKIPS) + ['False', 'other_list']:
       yield ['notimp', name, sname]
@@ -440,7 +562,13 @@ def run_shard(i, tier):
     if n % NSH != i:
       continue
     try:
-      if c[0] == 'notimp':
+      if c[0] == 'failing_import':
+        run_failing_import_case(c, res)
+      elif c[0] == 'include':
+        run_include_case(c, res)
+      elif c[0] == 'resolved_later':
+        run_resolved_later_case(c, res)
+      elif c[0] == 'notimp':
         run_not_imported_case(c, res)
       elif c[0] == 'late':
         run_late_case(c, res)
@@ -460,7 +588,13 @@ def run_shard(i, tier):
 
 def replay(c):
   res = core.Result()
-  if c[0] == 'notimp':
+  if c[0] == 'failing_import':
+    run_failing_import_case(c, res)
+  elif c[0] == 'include':
+    run_include_case(c, res)
+  elif c[0] == 'resolved_later':
+    run_resolved_later_case(c, res)
+  elif c[0] == 'notimp':
     run_not_imported_case(c, res)
   elif c[0] == 'late':
     run_late_case(c, res)
